@@ -21,6 +21,12 @@ inductive Lit where
   | char (c : Nat)
   deriving Repr, Inhabited
 
+/-- an integer or float literal (the literals a minus sign can belong to) -/
+def Lit.isNumeric : Lit → Bool
+  | .int _ => true
+  | .float _ _ => true
+  | _ => false
+
 inductive Tok where
   | punct (c : UInt8) (sp : Spacing)
   | ident (s : List UInt8)
@@ -85,7 +91,7 @@ def parse : Nat → List Tok → Option (MV × List Tok)
         | .alone =>
           if c == 45 then
             match rest with
-            | .lit l :: rest' => some (.negated l, rest')
+            | .lit l :: rest' => if l.isNumeric then some (.negated l, rest') else some (.symbol [c], rest)
             | _ => some (.symbol [c], rest)
           else if c == 58 then
             match rest with
